@@ -157,7 +157,6 @@ st_reap:     \* [threads] remove_finished_threads
   if (dead = << >>) { goto st_dormant; };
 st_join:     \* [join] despawn().join() of a finished (panicked) thread
   dead := Tail(dead);
-  h := ObsBlocked(h, self);
   if (dead # << >>) { goto st_join; };
 st_dormant:  \* [threads], or [busy] when blocked on a busy flag (FixD2)
   await (thrHeld = "" \/ thrHeld = self) /\ (thrHeld = self => ~busyLocked[pthreads[sti]]);
@@ -1233,7 +1232,6 @@ st_reap(self) == /\ pc[self] = "st_reap"
 
 st_join(self) == /\ pc[self] = "st_join"
                  /\ dead' = [dead EXCEPT ![self] = Tail(dead[self])]
-                 /\ h' = ObsBlocked(h, self)
                  /\ IF dead'[self] # << >>
                        THEN /\ pc' = [pc EXCEPT ![self] = "st_join"]
                        ELSE /\ pc' = [pc EXCEPT ![self] = "st_dormant"]
@@ -1248,7 +1246,7 @@ st_join(self) == /\ pc[self] = "st_join"
                                  dsl, atomic, strong, ppPending, ppClosed, 
                                  ppNotify, ppNC, ppBP, ppDepth, ppAlive, 
                                  ppHeld, inItems, inClosed, inWaker, pollFn, 
-                                 chuteFn, pwTaken, nextPoll, ppItem, stack, 
+                                 chuteFn, pwTaken, nextPoll, ppItem, h, stack, 
                                  sti, rq, sq, sj, ww, rsq, bown, bwk, bi, bcur, 
                                  bw, jq, jj, jwk, fj, dq, dj, oq, oop, omode, 
                                  oj, yq, yop, tq, top, af, wf, wop, sf, sctx, 
@@ -3739,7 +3737,7 @@ ro_park(self) == /\ pc[self] = "ro_park"
                                                                     \o stack[self]]
                             /\ pc' = [pc EXCEPT ![self] = "z_rj"]
                        ELSE /\ Assert(qstate[oq[self]] = "Running", 
-                                      "Failure of assertion at line 567, column 5.")
+                                      "Failure of assertion at line 566, column 5.")
                             /\ qstate' = [qstate EXCEPT ![oq[self]] = "WaitingForUnpark"]
                             /\ pc' = [pc EXCEPT ![self] = "ro_check"]
                             /\ UNCHANGED << stack, jq, jj, jwk >>
@@ -3773,7 +3771,7 @@ ro_check(self) == /\ pc[self] = "ro_check"
                                                                      \o stack[self]]
                              /\ pc' = [pc EXCEPT ![self] = "z_rj"]
                         ELSE /\ Assert(qstate[oq[self]] = "WaitingForUnpark", 
-                                       "Failure of assertion at line 574, column 12.")
+                                       "Failure of assertion at line 573, column 12.")
                              /\ pc' = [pc EXCEPT ![self] = "ro_parked"]
                              /\ UNCHANGED << stack, jq, jj, jwk >>
                   /\ UNCHANGED << qstate, qpoll, jobs, wakeBlocked, schedule, 
